@@ -132,3 +132,24 @@ package index
 //@     invariant forall k int :: 0 <= k && k < len(off) ==> off[k] == old(off[k])
 //@     decreases len(off) - $i
 //@   ensures okROM(result) && repROM(result, off, len(off))
+
+// ---------------------------------------------------------------------------
+// C02: rune offset -> byte offset inside the 100-rune sampling block
+// ---------------------------------------------------------------------------
+
+// The content window read at the sampling point (assumed: exactly sz bytes, or
+// an error).
+//@ func index.(*indexData).readContentSlice
+//@   trusted
+//@   ensures result1 == nil ==> len(result0) == sz
+//@   assigns nothing
+
+// findOffset walks at most 99 runes from the sampling point; the window it
+// reads is long enough for them whatever their encoded size (a rune takes at
+// most 4 bytes), so the walk never runs out of bytes and stops advancing.
+//@ func index.(*contentProvider).findOffset
+//@   may_panic
+//@   requires okROM(p.id.runeOffsets) && okROM(p.id.fileNameRuneOffsets)
+//@   loop 1:
+//@     invariant 0 <= left && left < 100
+//@     invariant !filename ==> len(data) >= 4 * left
